@@ -291,22 +291,33 @@ Definition step_with_faults (g : grid) (bulk : bool) (bad : list bbox) (st : ste
   if bulk then (fst st, filter (fun c => negb (bbox_mem (fst (tile_request g c)) bad)) (snd st))
   else if existsb (fun rq => bbox_mem (fst rq) bad) (fst st) then (fst st, []) else st.
 
+(* errs: the bboxes whose upstream request raises SourceError (HTTP error, timeout; no on_error handler).
+   _create_single_tile re-raises it (no stale tile to fall back to), _create_meta_tile lets it pass, the bulk creator
+   catches only BlankImage in query_tile and re-raises the first exception of its pool: the step stores nothing, the
+   request fails, no later request is made (creators run one after the other: concurrent_tile_creators = 1). *)
+Fixpoint upto_first_error (errs : list bbox) (rqs : list request) : list request :=
+  match rqs with
+  | [] => []
+  | rq :: r => if bbox_mem (fst rq) errs then [rq] else rq :: upto_first_error errs r
+  end.
+
 (* result: the steps that were run, and whether the request failed *)
-Fixpoint run_plan_faults (g : grid) (bulk : bool) (bad cut : list bbox) (plan : list step) : list step * bool :=
+Fixpoint run_plan_faults (g : grid) (bulk : bool) (bad cut errs : list bbox) (plan : list step) : list step * bool :=
   match plan with
   | [] => ([], false)
   | st :: rest =>
-    if negb bulk && existsb (fun rq => bbox_mem (fst rq) cut) (fst st) then ([(fst st, [])], true)
-    else let '(r, failed) := run_plan_faults g bulk bad cut rest in
+    if existsb (fun rq => bbox_mem (fst rq) errs) (fst st) then ([(upto_first_error errs (fst st), [])], true)
+    else if negb bulk && existsb (fun rq => bbox_mem (fst rq) cut) (fst st) then ([(fst st, [])], true)
+    else let '(r, failed) := run_plan_faults g bulk bad cut errs rest in
          (step_with_faults g bulk bad st :: r, failed)
   end.
 
-Definition request_with_faults (m : mgrid) (has_meta minimize bulk : bool) (cached : list coord) (bad cut : list bbox)
+Definition request_with_faults (m : mgrid) (has_meta minimize bulk : bool) (cached : list coord) (bad cut errs : list bbox)
            (tiles : list coord) : option (list request * list coord * bool) :=
   match plan_with_cache m has_meta minimize bulk cached tiles with
   | None => None
   | Some plan =>
-    let '(steps, failed) := run_plan_faults (mg_grid m) (has_meta && bulk) bad cut plan in
+    let '(steps, failed) := run_plan_faults (mg_grid m) (has_meta && bulk) bad cut errs plan in
     Some (flat_map fst steps, flat_map snd steps, failed)
   end.
 
@@ -324,6 +335,27 @@ Definition stored_colour (transparent : bool) (p : option (Z * Z)) : rgba :=
 Definition model_colour (m : mgrid) (q : Z) (h : how) (transparent : bool) (c : coord) (j k : Z) : option rgba :=
   match model_pixel m q h c j k with None => None | Some p => Some (stored_colour transparent p) end.
 Definition orgba_eqb (a b : option rgba) : bool := opt_eqb Z4_eqb a b.
+
+(* ---- a source with a clipping coverage (TileCreator._query_sources): with one source the shortcut
+   "return self.sources[0].get_map(query)" is taken unless the source has a coverage with clip that intersects the
+   query bbox; then merge_images clips the image at the coverage (mask_image) and draws it on the background of the
+   cache: result = create_image(size, image_opts); result.paste(img, (0, 0), img) - for an opaque RGB cache every band
+   becomes div255(s * a + 255 * (255 - a) + 128), outside the coverage the background stays.  (A source whose coverage
+   does not intersect the query raises BlankImage: no tile.) *)
+Definition takes_merge_path (clip : bool) (cov : option bbox) (q : bbox) : bool :=
+  match cov with Some c => clip && bbox_intersects c q | None => false end.
+Definition div255 (t : Z) : Z := Z.shiftr (t + Z.shiftr t 8) 8.
+Definition blend_on_white (c : rgba) : rgba :=
+  let '(r, g, b, a) := c in
+  (div255 (r * a + 255 * (255 - a) + 128), div255 (g * a + 255 * (255 - a) + 128), div255 (b * a + 255 * (255 - a) + 128), 255).
+(* inside: the pixel lies inside the coverage *)
+Definition clipped_colour (inside : bool) (p : option (Z * Z)) : rgba :=
+  match p with
+  | None => background false
+  | Some v => if inside then blend_on_white (colour_of true v) else background false
+  end.
+Definition model_clip_colour (m : mgrid) (q : Z) (h : how) (inside : bool) (c : coord) (j k : Z) : option rgba :=
+  match model_pixel m q h c j k with None => None | Some p => Some (clipped_colour inside p) end.
 
 (* ---- comparison helpers for the correspondence *)
 Definition Z2_eqb (a b : Z * Z) : bool := (fst a =? fst b) && (snd a =? snd b).
